@@ -7,8 +7,14 @@
                                                    use_route, free_route, next_route, deep_copy, deep_slice}
      vrp-core/src/models/problem/fleet.rs :: Fleet::new (grouping of actors), Actor identity (pointer) as a number
      vrp-core/src/models/problem/jobs.rs :: Job identity (pointer) as a number; sub-jobs of a Multi map to the Multi's number
+     vrp-core/src/construction/heuristics/factories.rs :: create_insertion_context_from_solution, create_empty_insertion_context,
+                                                   create_insertion_context (registry + routes built from the locks; lock conditions
+                                                   that select one actor; Single jobs)
+     vrp-core/src/construction/heuristics/context.rs :: InsertionContext::{new, new_empty, new_from_solution, restore, deep_copy},
+                                                   SolutionContext::{keep_routes, remove_empty_routes, deep_copy},
+                                                   From<InsertionContext> for Solution (registry and routes)
    Rust panics (assert!, expect, Vec::insert out of bounds) are `None`.  HashSet/HashMap are duplicate-free lists / association
-   lists; iteration order is not modelled (the correspondence sorts).  Entry points used by the correspondence: run_tour, run_reg.
+   lists; iteration order is not modelled (the correspondence sorts).  Entry points used by the correspondence: run_tour, run_reg, run_ho.
    No proofs in this file. *)
 From VRP Require Import Base.Tac.
 #[local] Open Scope nat_scope.
@@ -340,3 +346,192 @@ Fixpoint rsrun (cs : list rctx) (ops : list rsop) (acc : list (nat * rdump)) : l
   end.
 
 Definition run_reg (gs : list nat) (ops : list rsop) := rsrun [rctx_new gs] ops [].
+
+(* ------------------------------------------------------------------ hand-over Solution <-> InsertionContext
+   Only the parts of Solution / SolutionContext that the registry clause talks about: the registry and the routes.
+   GoalContext::accept_solution_state / accept_route_state are taken to leave routes and registry alone (true for the goal
+   the harness uses; a feature is free to do otherwise). *)
+Definition mroute := (nat * tour)%type.                                 (* Route { actor, tour } *)
+Definition rctx_of (r : reg) : rctx := mkRctx r (r_all r).              (* RegistryContext::new(goal, registry): index over registry.all() *)
+
+(* create_insertion_context_from_solution: registry = solution.registry.deep_copy(); routes.iter().for_each(|route|
+   if has_jobs { routes.push(deep copy); registry.use_actor(actor) } else { registry.free_actor(actor) }) — results ignored *)
+Fixpoint handover (r : reg) (rs : list mroute) : reg * list mroute :=
+  match rs with
+  | [] => (r, [])
+  | rt :: rest =>
+      if has_jobs (snd rt)
+      then let '(r', kept) := handover (fst (use_actor r (fst rt))) rest in (r', rt :: kept)
+      else handover (fst (free_actor r (fst rt))) rest
+  end.
+Definition from_solution_raw (r : reg) (rs : list mroute) : rctx * list mroute :=
+  let '(r', kept) := handover r rs in (rctx_of r', kept).
+
+(* SolutionContext::keep_routes: partition(predicate); every removed route: assert!(registry.free_route(route)) *)
+Fixpoint free_routes (c : rctx) (rs : list mroute) : option rctx :=
+  match rs with
+  | [] => Some c
+  | rt :: rest => let '(r', b) := free_actor (c_reg c) (fst rt) in
+                  if b then free_routes (mkRctx r' (c_idx c)) rest else None
+  end.
+Definition keep_routes (c : rctx) (rs : list mroute) (pred : mroute -> bool) : option (rctx * list mroute) :=
+  match free_routes c (filter (fun rt => negb (pred rt)) rs) with
+  | Some c' => Some (c', filter pred rs)
+  | None => None
+  end.
+Definition route_has_jobs (rt : mroute) : bool := has_jobs (snd rt).
+(* InsertionContext::restore: accept_solution_state; remove_empty_routes = keep_routes(has_jobs) *)
+Definition restore (c : rctx) (rs : list mroute) : option (rctx * list mroute) := keep_routes c rs route_has_jobs.
+(* InsertionContext::new_from_solution = create_insertion_context_from_solution + restore *)
+Definition new_from_solution (r : reg) (rs : list mroute) : option (rctx * list mroute) :=
+  let '(c, kept) := from_solution_raw r rs in restore c kept.
+(* From<InsertionContext> for Solution: registry = registry.resources().deep_copy(), routes = deep copies in order *)
+Definition into_solution (c : rctx) (rs : list mroute) : reg * list mroute := (c_reg c, rs).
+
+(* create_insertion_context: Registry::new; per lock (condition selecting the single actor l_actor): lazy -> nothing;
+   registry.available().find(cond) = Some -> use_actor, RouteContext::new(actor) + insert_last of every locked job, push;
+   None -> jobs become unassigned.  create_empty_insertion_context = no locks. *)
+Record mlock := mkLock { l_actor : nat; l_lazy : bool; l_acts : list act }.
+Fixpoint fill (t : tour) (acts : list act) : option tour :=
+  match acts with
+  | [] => Some t
+  | a :: r => match insert_last t a with Some t' => fill t' r | None => None end
+  end.
+Fixpoint ctx_locks (closed : bool) (r : reg) (rs : list mroute) (ls : list mlock) : option (reg * list mroute) :=
+  match ls with
+  | [] => Some (r, rs)
+  | l :: rest =>
+      if l_lazy l then ctx_locks closed r rs rest
+      else if set_mem (l_actor l) (available r)
+           then match fill (tour_new closed) (l_acts l) with
+                | Some t => ctx_locks closed (fst (use_actor r (l_actor l))) (rs ++ [(l_actor l, t)]) rest
+                | None => None
+                end
+           else ctx_locks closed r rs rest
+  end.
+Definition create_context (gs : list nat) (closed : bool) (ls : list mlock) : option (rctx * list mroute) :=
+  match ctx_locks closed (reg_new gs) [] ls with
+  | Some (r, rs) => Some (rctx_of r, rs)
+  | None => None
+  end.
+
+(* operations on one insertion context (registry context + routes) *)
+Inductive cop :=
+| CGetPush (a : nat)            (* registry.get_route(actor) and, when Some, routes.push(route) *)
+| CReg (o : rop)                (* use_route / free_route / get_route / next_route on the registry alone *)
+| CTour (i : nat) (o : top)     (* tour operation on route i *)
+| CKeep (keep : list nat)       (* keep_routes(|rc| keep contains rc.actor) *)
+| CRestore.                     (* InsertionContext::restore *)
+
+Definition cstep (closed : bool) (c : rctx) (rs : list mroute) (o : cop) : option (rctx * list mroute * nat) :=
+  match o with
+  | CGetPush a => let '(c', b) := get_route c a in
+                  if b then Some (c', rs ++ [(a, tour_new closed)], 1) else Some (c', rs, 0)
+  | CReg o' => let '(c', b) := rstep c o' in Some (c', rs, if b then 1 else 0)
+  | CTour i o' => match nth_error rs i with
+                  | Some rt => match tstep (snd rt) o' with
+                               | Some (t', r) => Some (c, set_nth i (fst rt, t') rs, r)
+                               | None => None
+                               end
+                  | None => None
+                  end
+  | CKeep keep => match keep_routes c rs (fun rt => set_mem (fst rt) keep) with
+                  | Some (c', rs') => Some (c', rs', 0)
+                  | None => None
+                  end
+  | CRestore => match restore c rs with Some (c', rs') => Some (c', rs', 0) | None => None end
+  end.
+
+(* slots: insertion contexts and solutions *)
+Inductive hslot :=
+| HCtx (c : rctx) (rs : list mroute)
+| HSol (r : reg) (rs : list mroute).
+
+Inductive hsop :=
+| HCtxOp (k : nat) (o : cop)
+| HSolReg (k : nat) (o : rop)                 (* solution.registry.use_actor / free_actor *)
+| HSolAdd (k : nat) (a : nat)                 (* solution.routes.push(Route { actor, Tour::new(actor) }) — registry untouched *)
+| HSolTour (k : nat) (i : nat) (o : top)      (* tour operation on route i of the solution *)
+| HFromSol (k : nat)                          (* InsertionContext::new_from_solution(copy of the solution): push *)
+| HInto (k : nat)                             (* Solution::from(ctx.deep_copy()): push *)
+| HCopy (k : nat).                            (* InsertionContext::deep_copy / copy of a solution: push *)
+
+Definition hsstep (closed : bool) (ss : list hslot) (o : hsop) : option (list hslot * nat * nat) :=
+  match o with
+  | HCtxOp k o' => match nth_error ss k with
+                   | Some (HCtx c rs) => match cstep closed c rs o' with
+                                         | Some (c', rs', r) => Some (set_nth k (HCtx c' rs') ss, r, k)
+                                         | None => None
+                                         end
+                   | _ => None
+                   end
+  | HSolReg k o' => match nth_error ss k with
+                    | Some (HSol r rs) => let '(c', b) := rstep (rctx_of r) o' in
+                                          Some (set_nth k (HSol (c_reg c') rs) ss, if b then 1 else 0, k)
+                    | _ => None
+                    end
+  | HSolAdd k a => match nth_error ss k with
+                   | Some (HSol r rs) => Some (set_nth k (HSol r (rs ++ [(a, tour_new closed)])) ss, 0, k)
+                   | _ => None
+                   end
+  | HSolTour k i o' => match nth_error ss k with
+                       | Some (HSol r rs) =>
+                           match nth_error rs i with
+                           | Some rt => match tstep (snd rt) o' with
+                                        | Some (t', ret) => Some (set_nth k (HSol r (set_nth i (fst rt, t') rs)) ss, ret, k)
+                                        | None => None
+                                        end
+                           | None => None
+                           end
+                       | _ => None
+                       end
+  | HFromSol k => match nth_error ss k with
+                  | Some (HSol r rs) => match new_from_solution r rs with
+                                        | Some (c, rs') => Some (ss ++ [HCtx c rs'], length ss, length ss)
+                                        | None => None
+                                        end
+                  | _ => None
+                  end
+  | HInto k => match nth_error ss k with
+               | Some (HCtx c rs) => let '(r, rs') := into_solution c rs in Some (ss ++ [HSol r rs'], length ss, length ss)
+               | _ => None
+               end
+  | HCopy k => match nth_error ss k with
+               | Some s => Some (ss ++ [s], length ss, length ss)
+               | None => None
+               end
+  end.
+
+(* observable dump of a slot: kind (0 context / 1 solution), registry dump, routes as actor :: has_jobs :: activities,
+   and for a context the actors for which get_route (on a copy of the registry) returns a route; probes = actors asked *)
+Definition enc_route (rt : mroute) : list nat :=
+  fst rt :: (if has_jobs (snd rt) then 1 else 0) :: flat_map enc_act (t_acts (snd rt)).
+Definition hdump := (nat * rdump * list (list nat) * list nat)%type.
+Definition dump_hslot (probes : list nat) (s : hslot) : hdump :=
+  match s with
+  | HCtx c rs => (0, dump_rctx c, map enc_route rs, filter (fun a => snd (get_route c a)) probes)
+  | HSol r rs => (1, dump_rctx (rctx_of r), map enc_route rs, [])
+  end.
+Definition hdump_nth (probes : list nat) (ss : list hslot) (k : nat) : hdump :=
+  match nth_error ss k with Some s => dump_hslot probes s | None => (2, ([], [], []), [], []) end.
+
+Fixpoint hsrun (closed : bool) (probes : list nat) (ss : list hslot) (ops : list hsop) (acc : list (nat * hdump))
+  : list (nat * hdump) * bool * list hdump :=
+  match ops with
+  | [] => (rev acc, false, map (dump_hslot probes) ss)
+  | o :: r => match hsstep closed ss o with
+              | Some (ss', ret, k) => hsrun closed probes ss' r ((ret, hdump_nth probes ss' k) :: acc)
+              | None => (rev acc, true, map (dump_hslot probes) ss)
+              end
+  end.
+
+(* entry point: init = None -> a solution with Registry::new and no routes; Some locks -> InsertionContext::new on a problem
+   with these locks (Some [] = also InsertionContext::new_empty).  Result: (dump of the initial slot, steps, panicked?, finals);
+   a panic inside the factory gives no slots *)
+Definition run_ho (gs : list nat) (closed : bool) (init : option (list mlock)) (ops : list hsop) :=
+  let probes := seq 0 (length gs + 3) in
+  let ss := match init with
+            | None => [HSol (reg_new gs) []]
+            | Some ls => match create_context gs closed ls with Some (c, rs) => [HCtx c rs] | None => [] end
+            end in
+  (hdump_nth probes ss 0, hsrun closed probes ss ops []).
